@@ -319,6 +319,22 @@ impl<'p> Interp<'p> {
 				"clone" => Ok(inner.clone()),
 				_ => unsup("method on float bits"),
 			},
+			V::Struct(ref n, _) if &**n == "__bitsint_s" || &**n == "__bitsint_u" => match name {
+				"clone" => Ok(inner.clone()),
+				"cmp" | "partial_cmp" => {
+					let b = self.deref_val(&args[0]);
+					let lt = self.bin_cmp("<", inner.clone(), b.clone())?;
+					let gt = self.bin_cmp(">", inner.clone(), b)?;
+					let (lt, gt) = (self.bool_term(&lt), self.bool_term(&gt));
+					let less = V::Enum("Ordering".into(), "Less".into(), vec![]);
+					let greater = V::Enum("Ordering".into(), "Greater".into(), vec![]);
+					let equal = V::Enum("Ordering".into(), "Equal".into(), vec![]);
+					let (less, greater, equal) = if name == "partial_cmp" { (self.mk_some(less), self.mk_some(greater), self.mk_some(equal)) } else { (less, greater, equal) };
+					let inner2 = V::Ite(gt, Rc::new(greater), Rc::new(equal));
+					Ok(V::Ite(lt, Rc::new(less), Rc::new(inner2)))
+				}
+				_ => unsup("method on float bits viewed as integer"),
+			},
 			V::Struct(ref n, ref fs) if &**n == "__ptr" => match name {
 				"add" | "offset" => {
 					let (k, _) = self.concretize_int(args.remove(0))?;
